@@ -42,7 +42,7 @@ Proof. repeat split; reflexivity. Qed.
 Lemma check_src_ok :
   src_Check = "{ return ls != nil && ls.getLease() != nil && !ls.getLease().IsExpired() }" /\
   src_lease_IsExpired = "{ if l.expireTime.Load() == nil { return false } return time.Now().After(l.expireTime.Load().(time.Time)) }" /\
-  src_lease_Close = "{ l.expireTime.Store(time.Time{}) ctx, cancel := context.WithTimeout(l.client.Ctx(), revokeLeaseTimeout) defer cancel() l.lease.Revoke(ctx, l.ID) return l.lease.Close() }" /\
+  src_lease_Close = "{ l.closeMu.Lock() l.closed = true l.expireTime.Store(time.Time{}) l.closeMu.Unlock() ctx, cancel := context.WithTimeout(l.client.Ctx(), revokeLeaseTimeout) defer cancel() l.lease.Revoke(ctx, l.ID) return l.lease.Close() }" /\
   grant_stores = ["l.expireTime.Store(start.Add(time.Duration(leaseResp.TTL) * time.Second))"] /\
   skel_Reset = [IfE "ls == nil || ls.getLease() == nil" [Ret] []; Call "Close"].
 Proof. repeat split; reflexivity. Qed.
@@ -75,12 +75,13 @@ Lemma leadertxn_sites_ok :
 Proof. intros s H; cbn in H; cbn. repeat destruct H as [<-|H]; tauto. Qed.
 
 (* keep-alive: the renewed local expiry is request start + TTL (model: LKeepStart records the start, LKeepDone uses it);
+   a response that arrives after Close() (closed flag, set under the same mutex as the zeroing) is not stored (LKeepDone on Closed);
    the stored expiry only moves forward within one KeepAlive call *)
 Lemma keepalive_ok :
   skel_keepAliveWorker =
   [GoE [ForE [GoE [Call "Now"; Assign "start" ":= time.Now()"; Call "KeepAliveOnce"; IfE "err != nil" [Ret] []; IfE "res.TTL > 0" [Assign "expire" ":= start.Add(time.Duration(res.TTL) * time.Second)"] []]; SwitchE [[Ret]; []]]]; Ret] /\
   skel_KeepAlive =
-  [Call "keepAliveWorker"; ForE [SwitchE [[Call "After"; IfE "t.After(maxExpire)" [Assign "maxExpire" "= t"; Call "Store"] []]; [Call "After"; Ret]; [Ret]]]].
+  [Call "keepAliveWorker"; ForE [SwitchE [[Call "After"; IfE "t.After(maxExpire)" [Assign "maxExpire" "= t"; Lock "l.closeMu"; IfE "!l.closed" [Call "Store"] []; Unlock "l.closeMu"] []]; [Call "After"; Ret]; [Ret]]]].
 Proof. split; reflexivity. Qed.
 
 (* the id window is extended through the comparisons and in the order C04's obligations pin down (proof.C04_Skel is
